@@ -899,4 +899,42 @@ EXTRA = [
             return True
 
         cur = self.db.cursor()""", 'C16.d'),
+    # ---------------------------------------------------------------- C13
+    M('M-C13a-stale-lt', 'mapproxy/cache/tile.py', "stale = int(tile.timestamp) <= max_mtime", "stale = int(tile.timestamp) < max_mtime", 'C13.a'),
+    M('M-C13a-compare-before-metadata', 'mapproxy/cache/tile.py', """            self.cache.load_tile_metadata(tile, dimensions=self.dimensions)
+            # file time stamp must be rounded to integer since time conversion functions
+            # mktime and timetuple strip decimals from seconds
+            stale = int(tile.timestamp) <= max_mtime""", """            # file time stamp must be rounded to integer since time conversion functions
+            # mktime and timetuple strip decimals from seconds
+            stale = int(tile.timestamp or 0) <= max_mtime
+            self.cache.load_tile_metadata(tile, dimensions=self.dimensions)""", 'C13.a'),
+    E('E-C13a-swapped', 'mapproxy/cache/tile.py', "stale = int(tile.timestamp) <= max_mtime", "stale = max_mtime >= int(tile.timestamp)", 'swapped operands'),
+    M('M-C13a-is-stale-inverted', 'mapproxy/cache/tile.py', """            if not self.is_cached(tile, dimensions=dimensions):
+                # expired
+                return True
+            return False
+        return False""", """            if self.is_cached(tile, dimensions=dimensions):
+                # expired
+                return True
+            return False
+        return False""", 'C13.a'),
+    M('M-C13b-cached-threshold', 'mapproxy/cache/tile.py', """            from mapproxy.seed.config import before_timestamp_from_options
+            return before_timestamp_from_options(self._refresh_before)
+        return self._expire_timestamp""", """            from mapproxy.seed.config import before_timestamp_from_options
+            if self._expire_timestamp is None:
+                self._expire_timestamp = before_timestamp_from_options(self._refresh_before)
+        return self._expire_timestamp""", 'C13.b'),
+    M('M-C13b-precedence', 'mapproxy/seed/config.py', "    if 'time' in conf:\n        try:\n            return timestamp_from_isodate(conf['time'])",
+      "    if 'time' in conf and 'mtime' not in conf:\n        try:\n            return timestamp_from_isodate(conf['time'])", 'C13.b'),
+    M('M-C13c-store-before-check', 'mapproxy/cache/tile.py', """                if not source:
+                    return []
+                if source.authorize_stale and self.is_stale(tile):""", """                if source.authorize_stale and self.is_stale(tile):""", 'C13.c'),
+    M('M-C13c-meta-store-unfetched', 'mapproxy/cache/tile.py', """                if not meta_tile_image:
+                    return []
+                splitted_tiles = split_meta_tiles""", """                splitted_tiles = split_meta_tiles""", 'C13.c'),
+    M('M-C13d-recheck-plain-cache', 'mapproxy/cache/tile.py', """        return self.tile_mgr.is_cached(tile, dimensions=dimensions)
+
+    def is_stale(self, tile):""", """        return self.tile_mgr.cache.is_cached(tile, dimensions=dimensions)
+
+    def is_stale(self, tile):""", 'C13.d'),
 ]
